@@ -171,6 +171,14 @@ def run_scenario(run, e4, sc):
             return v, "could not establish phases %s: %s" % (phases, {k: r.get("err") for k, r in res.items()}), info
         time.sleep(0.15)
         workers_before = srv.worker_pids()
+        if sc.get("retire"):
+            # the workers holding the requests are first retired (reload / TTOU) and only then the server is told to stop
+            srv.signal(signal.SIGHUP if sc["retire"] == "HUP" else signal.SIGTTOU)
+            time.sleep(0.6)
+            workers_before = sorted(set(workers_before) | set(srv.worker_pids()))
+        if sc.get("pidfile_garbage"):
+            with open(settings["pidfile"], "w") as f:       # somebody blanked / overwrote the pid file
+                f.write(sc["pidfile_garbage"])
         t_sig = time.monotonic()
         srv.signal(SIGS[signame])
         go.set()
@@ -212,7 +220,7 @@ def run_scenario(run, e4, sc):
             v.append(("listener-still-accepting", "address %r accepts connections after master exit" % (srv.addr,)))
         except OSError:
             run.count("listener_closed_checks")
-        if os.path.exists(settings["pidfile"]):
+        if os.path.exists(settings["pidfile"]) and not sc.get("pidfile_garbage"):
             v.append(("pidfile-left-behind", "pid file still present after exit"))
         if sc["bind"] in ("unix", "both") and os.path.exists(srv.sockpath):
             v.append(("unix-socket-file-left-behind", "socket file still present after exit"))
@@ -283,6 +291,15 @@ def scenarios(tier, seed):
     for wc in classes:
         out.append({"class": wc, "signal": "TERM", "bind": rng.choice(["tcp", "unix"]), "graceful": 4, "phases": ["partial", "app"],
                     "duration": "finishes", "app_delay": 2.0, "partial_delay": rng.choice([1.3, 1.8, 2.4])})
+    # workers retired by a reload / TTOU while they hold a request, then the stop signal
+    for wc in (classes[0], classes[1 + len(out) % 3]):
+        out.append({"class": wc, "signal": "TERM", "bind": "tcp", "graceful": 6, "phases": ["app", "stream"], "duration": "finishes",
+                    "app_delay": 2.0, "retire": rng.choice(["HUP", "HUP", "TTOU"])})
+    out.append({"class": rng.choice(classes), "signal": "TERM", "bind": "tcp", "graceful": 2, "phases": ["app"], "duration": "never",
+                "retire": "HUP"})
+    # the pid file does not hold a pid any more when the server is stopped
+    out.append({"class": rng.choice(classes), "signal": rng.choice(["TERM", "INT"]), "bind": "unix", "graceful": 3, "phases": ["app", "keepalive"],
+                "duration": "finishes", "app_delay": 0.4, "pidfile_garbage": rng.choice(["\n", "not-a-pid\n", ""])})
     # two listeners, the request in flight on one of them while the other is idle
     for wc in classes:
         out.append({"class": wc, "signal": "TERM", "bind": "both", "graceful": 5, "phases": ["app", "stream"],
@@ -314,7 +331,7 @@ def shard(sh):
         if reason is None or v:
             break
         run.count("retries_after_inconclusive")
-    run.case(json.dumps({k: sc.get(k) for k in ("class", "signal", "bind", "phases", "duration", "graceful", "partial_delay", "busy_on")}, sort_keys=True))
+    run.case(json.dumps({k: sc.get(k) for k in ("class", "signal", "bind", "phases", "duration", "graceful", "partial_delay", "busy_on", "retire", "pidfile_garbage")}, sort_keys=True))
     run.count("scenarios")
     run.count("class/" + sc["class"])
     run.count("signal/" + sc["signal"])
